@@ -448,29 +448,29 @@ func writeEvidence(verif, prop, tier string, seed uint64, cfg propCfg, a *summar
 		}
 	}
 	cov := map[string]interface{}{
-		"evaluations":          a.Runs,
-		"distinct_nontrivial":  nnt,
-		"rule":                 cfg.Rule + " Non-trivial: " + cfg.NonTrivial + " Distinct: different hash of the full event log (task/site sequence, responses, delivered events).",
-		"samples":              samples,
-		"distinct_histories":   nsched,
+		"evaluations":           a.Runs,
+		"distinct_nontrivial":   nnt,
+		"rule":                  cfg.Rule + " Non-trivial: " + cfg.NonTrivial + " Distinct: different hash of the full event log (task/site sequence, responses, delivered events).",
+		"samples":               samples,
+		"distinct_histories":    nsched,
 		"distinct_final_states": nstates,
-		"scheduler_steps":      a.Steps,
-		"client_operations":    a.Ops,
-		"simulated_seconds":    float64(a.SimMs) / 1000,
-		"runs_per_hour":        float64(a.Runs) / wall * 3600,
-		"seeds_per_hour":       float64(a.Runs) / wall * 3600,
-		"faults_fired":         a.Fired,
-		"yield_site_hits":      a.SiteHits,
-		"reach_probes":         a.Probes,
-		"probes_never_hit":     zero,
-		"run_classes":          a.Classes,
-		"engines":              a.Engines,
-		"inconclusive_runs":    a.Inconcl,
-		"determinism_hazards":  a.Hazards,
-		"real_components":      cfg.Real,
-		"stubbed_components":   cfg.Stub,
-		"known_findings":       kf,
-		"known_finding_hits":   a.KnownHits,
+		"scheduler_steps":       a.Steps,
+		"client_operations":     a.Ops,
+		"simulated_seconds":     float64(a.SimMs) / 1000,
+		"runs_per_hour":         float64(a.Runs) / wall * 3600,
+		"seeds_per_hour":        float64(a.Runs) / wall * 3600,
+		"faults_fired":          a.Fired,
+		"yield_site_hits":       a.SiteHits,
+		"reach_probes":          a.Probes,
+		"probes_never_hit":      zero,
+		"run_classes":           a.Classes,
+		"engines":               a.Engines,
+		"inconclusive_runs":     a.Inconcl,
+		"determinism_hazards":   a.Hazards,
+		"real_components":       cfg.Real,
+		"stubbed_components":    cfg.Stub,
+		"known_findings":        kf,
+		"known_finding_hits":    a.KnownHits,
 	}
 	if b, err := os.ReadFile(filepath.Join(verif, "selftest", "determinism-"+prop+".json")); err == nil {
 		var d interface{}
